@@ -205,9 +205,8 @@ theorem extend_closed_wf (cfg : Cfg) (hk : cfg.extKeepAll = true) (hin : cfg.ext
   exact ⟨c, wfB_of_closedB c p n⟩
 
 /-- the variant in the working tree -/
-theorem current_extend_closed (hk : PyGql.Generated.HeapCfg.currentCfg.extKeepAll = true)
-    (hin : PyGql.Generated.HeapCfg.currentCfg.extInputFieldExtended = true) : ExtendClosed PyGql.Generated.HeapCfg.currentCfg :=
-  extend_closed _ hk hin
+theorem current_extend_closed : ExtendClosed PyGql.Generated.HeapCfg.currentCfg :=
+  extend_closed _ cur_extKeepAll cur_extInputFieldExtended
 
 /-- `extend type Query { dogs(first: String): Dog }  extend interface Pet { age: String }  type Zed { z: Pet }` -/
 def extMore : Ext :=
